@@ -22,6 +22,9 @@ type Process struct {
 	Status  int
 	Reaped  bool
 	Task    *Task
+	// Helper: the process leaves a descendant behind (a daemon it started) that inherited its
+	// standard error and never exits.
+	Helper  bool
 	User    interface{} // world-specific per-process log
 	carrier byte        // race-detector carrier: process exit happens before a successful wait
 }
@@ -100,6 +103,14 @@ func (s *Sim) WaitProcess(p *Process) {
 	raceAcquire(&p.carrier)
 	p.Reaped = true
 	s.Emit("proc-reaped", p.Name, int64(p.Status), "")
+}
+
+// WaitForever parks the calling task for good (what waiting for something that never
+// happens looks like); the run ends in the scheduler's deadlock detection.
+func (s *Sim) WaitForever(p *Process) {
+	s.Emit("wait-forever", p.Name, 0, "output copier waits for a descendant that holds the pipe")
+	never := &Process{Name: p.Name + ".helper"}
+	s.blockOn(wProc, never)
 }
 
 func (p *Process) String() string { return fmt.Sprintf("%s[%d]", p.Name, p.Pid) }
